@@ -715,6 +715,15 @@ run_direct(IMB_MGR *mgr)
                                 ;
                 }
         }
+        /* synchronous bursts: a NULL job array is refused with the same code on all three (and recorded in the manager) */
+        FAIL("SUBMIT_HASH_BURST(jobs=NULL)", IMB_ERR_NULL_BURST, (void) IMB_SUBMIT_HASH_BURST(mgr, NULL, 1, IMB_AUTH_HMAC_SHA_1));
+        OK("QUEUE_SIZE(after hash burst NULL)", (void) IMB_QUEUE_SIZE(mgr));
+        FAIL("SUBMIT_CIPHER_BURST(jobs=NULL)", IMB_ERR_NULL_BURST,
+             (void) IMB_SUBMIT_CIPHER_BURST(mgr, NULL, 1, IMB_CIPHER_CBC, IMB_DIR_ENCRYPT, IMB_KEY_128_BYTES));
+        OK("QUEUE_SIZE(after cipher burst NULL)", (void) IMB_QUEUE_SIZE(mgr));
+        FAIL("SUBMIT_AEAD_BURST(jobs=NULL)", IMB_ERR_NULL_BURST,
+             (void) IMB_SUBMIT_AEAD_BURST(mgr, NULL, 1, IMB_CIPHER_GCM, IMB_DIR_ENCRYPT, IMB_KEY_128_BYTES));
+        OK("QUEUE_SIZE(after aead burst NULL)", (void) IMB_QUEUE_SIZE(mgr));
         FAIL("imb_set_session(job=NULL)", IMB_ERR_NULL_JOB, (void) imb_set_session(mgr, NULL));
         {
                 IMB_JOB t;
